@@ -707,6 +707,30 @@ class Machine:
                         return UNKNOWN
                 return []
             return UNKNOWN
+        if m("HashMap::entry"):
+            return EntryTok(a0, a[1]) if isinstance(a0, Map) else UNKNOWN
+        if "hash_map::Entry" in c or "map::Entry" in c:
+            if isinstance(a0, EntryTok):
+                k = key_of(a0.key)
+                if end in ("or_insert", "or_insert_with", "or_default", "or_insert_with_key"):
+                    if k not in a0.map.d:
+                        if end == "or_insert":
+                            v = a[1]
+                        elif end == "or_insert_with":
+                            v = self.call_value(a[1], [])
+                        elif end == "or_insert_with_key":
+                            v = self.call_value(a[1], [a0.key])
+                        else:
+                            v = UNKNOWN
+                        a0.map.d[k] = (a0.key, v)
+                    return a0.map.d[k][1]
+                if end == "and_modify":
+                    if k in a0.map.d:
+                        self.call_value(a[1], [a0.map.d[k][1]])
+                    return a0
+                if end == "key":
+                    return a0.key
+            return UNKNOWN
         if m("HashMap::insert"):
             if isinstance(a0, Map):
                 old = a0.d.get(key_of(a[1]))
@@ -1006,6 +1030,11 @@ class ListSlot(absint.Ptr):
 
     def set(self, v):
         self.lst[self.i] = v
+
+
+class EntryTok:
+    def __init__(self, m, key):
+        self.map, self.key = m, key
 
 
 class PeekableIt:
